@@ -6,4 +6,8 @@ From Coq Require Import ExtrOcamlBasic.
 From RaftV Require Import Base Quorum Types Progress Tracker Storage Log Raft RawNode.
 Extraction "model.ml" Base.sub64 Quorum.majority_committed Quorum.joint_committed
   Quorum.majority_vote Quorum.joint_vote Quorum.joint_ids
-  Types.entry_size Storage.limit_size Progress.infl_window Progress.infl_full RawNode.node_step RawNode.init_node.
+  Types.entry_size Storage.limit_size Progress.infl_window Progress.infl_full Progress.new_inflights Progress.infl_add Progress.infl_free_le Progress.infl_count
+  Tracker.make_tracker Tracker.t_with_config_progress Tracker.changer_simple Tracker.changer_enter_joint Tracker.changer_leave_joint Tracker.cc_restore
+  Storage.new_memstorage Storage.ms_append Storage.ms_compact Storage.ms_create_snapshot Storage.ms_apply_snapshot Storage.ms_entries Storage.ms_term
+  Storage.ms_get_snapshot Storage.ms_first_index Storage.ms_last_index
+  RawNode.node_step RawNode.init_node.
